@@ -26,7 +26,7 @@ def cmdLst (args : List String) : String :=
             | _ :: _ => none
           match raws nodes with
           | none => "asm=err Io"
-          | some rs => match assemble (fun k => k) (asmFuelFor text.length) {} (RawOps.ofList rs) with
+          | some rs => match assemble (fun k => k) (asmFuelOps text.length rs) {} (RawOps.ofList rs) with
             | .ok (out, _) => s!"asm=ok {hx out}"
             | .error e => "asm=" ++ showAsmErr e
       s!"offs={offs} fin={fin} {res}"
